@@ -1,8 +1,10 @@
 """C15 -- tuning is negotiated as documented and then obeyed."""
+import re
 import hir as H
 import paths as P
 import sym as S
 from rules import panics
+from rules import arms as A
 
 EXPLANATION = (
     "The negotiation is decided as a symbolic term, parametric in all six inputs: make_tune_ok returns TuneOk{channel_max: min(p(tune.channel_max), p(self.channel_max)), "
@@ -28,53 +30,82 @@ def run(ctx):
 
 
 def _run_main(ctx):
+    fnp = CO + 'make_tune_ok'
+    rows = P.table(ctx, fnp, ['self', 'tune'])
+    site = ctx.site(fnp)
+    FMIN = 'amq_protocol::protocol::constants::FRAME_MIN_SIZE'
+    INPUTS = {'tune.channel_max': 'u16', 'self.channel_max': 'u16', 'tune.frame_max': 'u32', 'self.frame_max': 'u32'}
+
+    def zeroes(x):
+        """which inputs the path found to be 0 / not 0 (the promotion helpers are read through, whatever their shape)"""
+        z = {}
+        for s_, p_ in x.conds:
+            m = re.match(r'^\(0 == (.+)\)$', s_) if isinstance(s_, str) else None
+            if m and m.group(1) in INPUTS and isinstance(p_, bool):
+                z[m.group(1)] = p_
+        return z
+
+    def promoted(x, name):
+        return '%s::MAX' % INPUTS[name] if zeroes(x).get(name) else name
+
+    def is_min(built, a, b):
+        forms = ['std::cmp::Ord::min(%s, %s)', 'std::cmp::min(%s, %s)']
+        return built in [f % (a, b) for f in forms] + [f % (b, a) for f in forms] or (a == b and built == a)
+
+    def requested(x):
+        """the negotiated frame_max this path compared with the minimum: (term, path says it is too small)"""
+        for s_, p_ in x.conds:
+            m = re.match(r'^\((.+) < %s\)$' % re.escape(FMIN), s_) if isinstance(s_, str) else None
+            if m and isinstance(p_, bool):
+                return m.group(1), p_
+        return None, None
+
     with ctx.rule('R15.1', 'negotiation term: min of both sides with 0 promoted to the maximum (channel_max, frame_max); plain min for heartbeat', floor=9) as r:
-        fnp = CO + 'make_tune_ok'
-        rows = P.table(ctx, fnp, ['self', 'tune'])
-        site = ctx.site(fnp)
-        p16, p32 = fnp + '::promote_0_u16', fnp + '::promote_0_u32'
-        fm = 'std::cmp::Ord::min(%s(tune.frame_max), %s(self.frame_max))' % (p32, p32)
-        cm = 'std::cmp::Ord::min(%s(tune.channel_max), %s(self.channel_max))' % (p16, p16)
-        hb = 'std::cmp::Ord::min(tune.heartbeat, self.heartbeat)'
         okr = [x for x in rows if x.value_str().startswith('Ok(')]
-        if r.check('ok-row', len(rows) == 2 and len(okr) == 1, site, built=[x.row() for x in rows]):
-            t = okr[0].value
+        r.check('ok-row', len(okr) >= 1 and A.covers_all([list(x.conds) for x in rows]), site, built=[x.cond_strs() for x in rows][:6],
+                expected='paths that answer with a TuneOk exist and the paths together cover every combination of zero / non-zero inputs')
+        lit_ok = cm_ok = fm_ok = hb_ok = bool(okr)
+        bad_rows = []
+        for x in okr:
+            t = x.value
             st = t[2][0] if t[0] == 'call' else None
-            if r.check('TuneOk-literal', st is not None and st[0] == 'struct' and st[1] == 'amq_protocol::protocol::connection::TuneOk', site, built=S.show(t)):
-                f = {n: S.show(v) for n, v in st[2]}
-                r.eq('channel_max', f.get('channel_max'), cm, site, why='lower of the two sides, 0 meaning no limit')
-                r.eq('frame_max', f.get('frame_max'), fm, site, why='lower of the two sides, 0 meaning no limit')
-                r.eq('heartbeat', f.get('heartbeat'), hb, site, why='lower of the two values; 0 (disabled) wins, so no promotion')
-        for nm, ty in (('promote_0_u16', 'u16'), ('promote_0_u32', 'u32')):
-            fp = fnp + '::' + nm
-            fn = ctx.fn(fp)
-            rows2 = P.table(ctx, fp, ['val'])
-            got = sorted((x.cond_strs(), [e for e in x.effects if '=' in e and not e.startswith('let')], x.value_str()) for x in rows2)
-            # either `if val == 0 { val = MAX }; val` or the expression form `if val == 0 { MAX } else { val }`
-            want_a = sorted([(['(0 == val)'], ['val = %s::MAX' % ty], 'val'), (['!(0 == val)'], [], 'val')])
-            want_b = sorted([(['(0 == val)'], [], '%s::MAX' % ty), (['!(0 == val)'], [], 'val')])
-            r.check('%s:rows' % nm, got in (want_a, want_b), ctx.site(fp), built=got, expected=want_a, why='0 is promoted to the maximum, anything else is unchanged')
-            mx = [n for n in H.walk(fn['hir']) if H.num_limit(n)]
-            r.check('%s:width' % nm, fn['inputs'] == [ty] and fn['output'] == ty and len(mx) == 1 and mx[0].get('ty') == ty and H.num_limit(mx[0]) == ty + '::MAX', ctx.site(fp), built=(fn['inputs'], fn['output'], [m.get('ty') for m in mx]),
-                    expected='%s -> %s with %s::max_value()' % (ty, ty, ty), why="two unlimited sides yield the field's own maximum")
+            if not (st is not None and st[0] == 'struct' and st[1] == 'amq_protocol::protocol::connection::TuneOk'):
+                lit_ok = False
+                continue
+            f = {n: S.show(v) for n, v in st[2]}
+            c = is_min(f.get('channel_max'), promoted(x, 'tune.channel_max'), promoted(x, 'self.channel_max'))
+            m_ = is_min(f.get('frame_max'), promoted(x, 'tune.frame_max'), promoted(x, 'self.frame_max'))
+            h = is_min(f.get('heartbeat'), 'tune.heartbeat', 'self.heartbeat') and 'tune.heartbeat' != 'self.heartbeat'
+            # a path that did not look at an input must not depend on its being zero: its term must name the input itself
+            cm_ok, fm_ok, hb_ok = cm_ok and c, fm_ok and m_, hb_ok and h
+            if not (c and m_ and h):
+                bad_rows.append((x.cond_strs(), f))
+        r.check('TuneOk-literal', lit_ok, site, built=[x.value_str()[:120] for x in okr][:2])
+        r.check('channel_max', cm_ok, site, built=bad_rows[:2], expected='min(P(tune.channel_max), P(self.channel_max)), P(0) = u16::MAX', why='lower of the two sides, 0 meaning no limit; two unlimited sides yield u16::MAX')
+        r.check('frame_max', fm_ok, site, built=bad_rows[:2], expected='min(P(tune.frame_max), P(self.frame_max)), P(0) = u32::MAX', why='lower of the two sides, 0 meaning no limit; two unlimited sides yield u32::MAX')
+        r.check('heartbeat', hb_ok, site, built=bad_rows[:2], expected='min(tune.heartbeat, self.heartbeat)', why='lower of the two values; 0 (disabled) wins, so no promotion')
+        # every input is examined for 0 on every path that uses it (no path promotes without having tested, none forgets to)
+        for nm in sorted(INPUTS):
+            r.check('promotion:%s' % nm, all(nm in zeroes(x) for x in okr), site, built=[x.cond_strs() for x in okr if nm not in zeroes(x)][:2],
+                    expected='(0 == %s) decided on every path that builds the TuneOk' % nm, why='0 is promoted to the maximum, anything else is unchanged')
 
     with ctx.rule('R15.2', 'frame_max floor: below 4096 -> FrameMaxTooSmall and no TuneOk', floor=4) as r:
-        fnp = CO + 'make_tune_ok'
-        rows = P.table(ctx, fnp, ['self', 'tune'])
-        site = ctx.site(fnp)
-        p32 = fnp + '::promote_0_u32'
-        fm = 'std::cmp::Ord::min(%s(tune.frame_max), %s(self.frame_max))' % (p32, p32)
-        G = '(%s < amq_protocol::protocol::constants::FRAME_MIN_SIZE)' % fm
-        bad = [x for x in rows if x.conds == [(G, True)]]
-        good = [x for x in rows if x.conds == [(G, False)]]
-        r.check('guard-rows', len(bad) == 1 and len(good) == 1, site, built=[x.cond_strs() for x in rows], expected=[G, '!' + G], why='strictly below the minimum fails; exactly 4096 is accepted')
-        if bad:
-            r.eq('too-small-error', (bad[0].value_str(), bad[0].done),
-                 ('Err(errors::Error::FrameMaxTooSmall{min: amq_protocol::protocol::constants::FRAME_MIN_SIZE, requested: %s})' % fm, 'return'), site)
-        if good:
-            r.check('tuneok-only-on-false-edge', good[0].value_str().startswith('Ok(amq_protocol::protocol::connection::TuneOk{'), site, built=good[0].value_str()[:80])
+        bad = [x for x in rows if requested(x)[1] is True]
+        good = [x for x in rows if requested(x)[1] is False]
+        others = [x for x in rows if requested(x)[1] is None]
+        ok_req = all(is_min(requested(x)[0], promoted(x, 'tune.frame_max'), promoted(x, 'self.frame_max')) for x in bad + good)
+        r.check('guard-rows', bad and good and not others and ok_req, site, built=[x.cond_strs()[-1:] for x in rows][:4],
+                expected='every path compares min(P(tune.frame_max), P(self.frame_max)) with FRAME_MIN_SIZE by `<`', why='strictly below the minimum fails; exactly 4096 is accepted')
+        r.check('too-small-error', bad and all((x.value_str(), x.done) == ('Err(errors::Error::FrameMaxTooSmall{min: %s, requested: %s})' % (FMIN, requested(x)[0]), 'return') or
+                                                (x.value_str() == 'Err(errors::Error::FrameMaxTooSmall{min: %s, requested: %s})' % (FMIN, requested(x)[0])) for x in bad), site,
+                built=[x.value_str()[:160] for x in bad][:2], expected='Err(FrameMaxTooSmall{min: FRAME_MIN_SIZE, requested: the negotiated value})')
+        r.check('tuneok-only-on-false-edge', good and all(x.value_str().startswith('Ok(amq_protocol::protocol::connection::TuneOk{') for x in good)
+                and not [x for x in bad if x.value_str().startswith('Ok(')], site, built=[x.value_str()[:80] for x in good][:2])
         fn = ctx.fn(fnp)
         consts = set((n['path'], n.get('bits')) for n in H.walk(fn['hir']) if n.get('k') == 'Def' and n['path'].endswith('FRAME_MIN_SIZE'))
+        for hp, hf in ctx.fns.items():
+            if hp.startswith(CO + 'make_tune_ok::') and 'hir' in hf:
+                consts |= set((n['path'], n.get('bits')) for n in H.walk(hf['hir']) if n.get('k') == 'Def' and n['path'].endswith('FRAME_MIN_SIZE'))
         r.eq('FRAME_MIN_SIZE', sorted(consts), [('amq_protocol::protocol::constants::FRAME_MIN_SIZE', '4096')], site, why='AMQP 0-9-1 frame-min-size')
 
     with ctx.rule('R15.3', 'single source of truth: the one TuneOk feeds wire, timers, state, channel limit and body splitting', floor=9) as r:
@@ -133,7 +164,6 @@ def _run_main(ctx):
                     r.bad('frame_max-reassigned:%s' % p, ctx.site(p, nd), built=H.term(nd), why='the negotiated limit must not change after the handshake')
 
     with ctx.rule('R15.5', 'heartbeat timing follows the announced interval: each activity stamps its own timer, expiry actions (shared with C17)', floor=10) as r:
-        from rules import arms as A
         A.include(ctx, r, 'c17', 'R17.2')
         A.include(ctx, r, 'c17', 'R17.3')
 
@@ -145,7 +175,6 @@ def _run_main(ctx):
 
 
 def _shared_r4(ctx):
-    from rules import arms as A
     """Rules of other properties that are necessary conditions of this one too (found by seeding round 4)."""
     with ctx.rule('R15.6', 'heartbeat timing follows the announced interval: rx timer at the interval, tx timer at half of it (shared with C17)', floor=1) as r:
         A.include(ctx, r, 'c17', 'R17.1', pick=('rx-tx-intervals', 'max-missed'))
